@@ -304,6 +304,9 @@ impl Scenario for Throttle {
         // only the high-water mark is set (the documented default low-water mark, 0, stays)
         v.push(json!({"bound": 1, "high": 64, "low": null, "stall": 260, "grants": [33]}));
         v.push(json!({"bound": 16, "high": 128, "low": null, "stall": 260, "grants": [33]}));
+        // a backlog of megabytes (six messages of 400 000 bytes behind the stall, default-sized
+        // high-water mark) that the transport then takes in one go
+        v.push(json!({"bound": 16, "high": 16777216, "low": 0, "stall": 260, "grants": [], "body": 400000}));
         // the connection is closed while the backlog is still buffered and the transport takes it in
         // small grants: everything accepted before the close still goes out once, then the Close
         // (high-water mark out of reach: a channel that is throttled when the connection is closed
@@ -348,6 +351,11 @@ impl Scenario for Throttle {
         if cfg.fine {
             cfg.max_steps = 20000;
         }
+        let body_len = p["body"].as_u64().unwrap_or(40) as usize;
+        if body_len > 100000 {
+            // no call takes more than 64 KiB, but the calls never meet would-block once granted
+            cfg.write_chunk = Some(65536);
+        }
         let close_behind = p["close_behind"] == true;
         if close_behind {
             // the peer trickles: 33 bytes at a time, to the end
@@ -381,7 +389,7 @@ impl Scenario for Throttle {
                     };
                     actors.push(ctx.spawn(&format!("p{}", chan), move |ctx| {
                         for i in 0..3u8 {
-                            let body = vec![chan as u8 * 16 + i; 40];
+                            let body = vec![chan as u8 * 16 + i; body_len];
                             let r = ch.basic_publish("ex", Publish::new(&body, "k"));
                             ctx.log(format!("publish{} -> {}", i, res(&r)));
                         }
@@ -416,7 +424,8 @@ impl Scenario for Throttle {
         let bound = (p["bound"].as_u64().unwrap() as usize).max(1);
         let high = p["high"].as_u64().unwrap() as usize;
         // (one queue entry is one whole message since fix 7cfc22c: method + header + body, 91 bytes here)
-        let limit = high + 3 * (bound + 1) * 96 + 64;
+        let body_len = p["body"].as_u64().unwrap_or(40) as usize;
+        let limit = high + 3 * (bound + 1) * (body_len + 56 + 8 * (body_len / 4000)) + 64;
         if o.max_outbuf > limit {
             v.push(("throttle:buffer-unbounded".into(), format!("buffered output reached {} bytes at a poll gate; bound for this tuning is {} (high {} + 3 channels x (bound {}+1) x 96 + 64)", o.max_outbuf, limit, high, bound)));
         }
@@ -453,12 +462,12 @@ impl Scenario for Throttle {
             for i in 0..3u8 {
                 want.push("M60.40".into());
                 want.push("H".into());
-                want.push(format!("B{}x40", chan as u8 * 16 + i));
+                want.push(format!("B{}x{}", chan as u8 * 16 + i, body_len));
             }
             if p["close_behind"] != true {
                 want.push("M20.40".into());
             }
-            let got: Vec<String> = envs
+            let got0: Vec<String> = envs
                 .iter()
                 .filter(|e| e.chan == chan)
                 .map(|e| match e.ty {
@@ -474,6 +483,21 @@ impl Scenario for Throttle {
                     t => format!("T{}", t),
                 })
                 .collect();
+            // (a body larger than frame_max comes in several frames: merged)
+            let mut got: Vec<String> = Vec::new();
+            for g in got0 {
+                let merged = match (got.last(), g.strip_prefix('B').and_then(|x| x.split_once('x'))) {
+                    (Some(last), Some((byte, len))) if last.starts_with('B') && last[1..].split_once('x').map(|(b, _)| b == byte).unwrap_or(false) => {
+                        let (b, l) = last[1..].split_once('x').unwrap();
+                        Some(format!("B{}x{}", b, l.parse::<usize>().unwrap_or(0) + len.parse::<usize>().unwrap_or(0)))
+                    }
+                    _ => None,
+                };
+                match merged {
+                    Some(m) => *got.last_mut().unwrap() = m,
+                    None => got.push(g),
+                }
+            }
             if got != want {
                 v.push(("throttle:messages-lost-or-reordered".into(), format!("channel {} frames {:?} expected {:?}", chan, got, want)));
             }
